@@ -127,8 +127,9 @@ CHECKS['C15'] = dict(
 CHECKS['C16'] = dict(
    text='Machine-checked theorems over the trade-list metrics written as plain definitions (exact rationals), for EVERY list of trades: total = winners + losers + '
         'break-even; net profit = sum of PnL = gross profit + gross loss; longs + shorts = total and the two percentages sum to 100; win rate lies in [0,1] and '
-        'win_rate*(W+L) = W; expectancy*(W+L) = net profit (all four win/loss cases); the largest win bounds every winner; and for every positive equity series the '
-        'maximum drawdown is never positive. The definitions are evaluated in Coq against services/metrics.trades on synthetic trade lists (22 reported values each); '
+        'win_rate*(W+L) = W; expectancy*(W+L) = net profit (all four win/loss cases); the largest win / loss bound the winners / losers and are the PnL of one of them; the winning (losing) streak is the length of the longest block of consecutive winners '
+        '(losers) - no block is longer, one is as long - and the current streak the signed run at the end; the drawdown at sample k is equity_k / max(equity_0..k) - 1, and for every positive equity series the '
+        'maximum drawdown is one of these values and lies in (-1, 0]. The definitions are evaluated in Coq against services/metrics.trades on synthetic trade lists (22 reported values each); '
         'the ratio metrics are compared with an independent recomputation of their standard definitions; the equity samples of real multi-day sessions are recomputed '
         'independently at the moment they are taken.',
    note='Trusted: Coq kernel + vm_compute; hand-written Model/Metrics.v tied by value correspondence; harness/c16.py, driver.py, engine.py. Sharpe/Sortino/Calmar/Omega/annual '
@@ -162,7 +163,7 @@ CHECKS['C04'] = dict(
         'tied to the real objects after every operation (exact comparison inside Coq) and the reference account is evaluated on the implementation\'s own '
         'observations.',
    note='Trusted: Coq kernel + vm_compute; Model/Spot.v (hand-written); harness/c04.py + driver.py (inert strategy attached). Exact arithmetic: inputs are '
-        'short decimals / dyadic values for which Decimal(str(x)) arithmetic is exact (checked per observation); binary64 rounding of long expansions is not covered.',
+        'short decimals / dyadic values for which Decimal(str(x)) arithmetic is exact (checked per observation); a third stream (eight-decimal quantities, basis-point fees, arbitrary prices: inexact float products) is compared up to 1e-10 on histories kept away from the rejection boundary.',
    tech='Rocq proof: refinement to a reference account by invariant over all histories + exact model/implementation correspondence', ref='DESIGN.md sections 0.2 and 6 (C04)')
 CHECKS['C03'] = dict(
    text='Machine-checked refinement (exact rationals): for every wallet, leverage, fee, number of symbols sharing the wallet and every legal history of '
